@@ -136,31 +136,39 @@ class LeanSide:
                 out.append((".".join(ns + [m.group(1)]), i))
         return out
 
+    def closure(self):
+        """files of this library transitively imported by Props/Cxx.lean (incl. itself)"""
+        seen, todo = [], [self.props_file]
+        while todo:
+            f = todo.pop()
+            if f in seen or not os.path.exists(f):
+                continue
+            seen.append(f)
+            for m in re.findall(r"^import\s+(CuqiVerif\.\S+)", open(f).read(), re.M):
+                todo.append(os.path.join(LEAN, *m.split(".")) + ".lean")
+        return seen
+
     def forbidden_scan(self):
         hits = []
-        for root, _, files in os.walk(os.path.join(LEAN, "CuqiVerif")):
-            for f in files:
-                if not f.endswith(".lean"):
-                    continue
-                p = os.path.join(root, f)
-                in_block = False
-                for i, line in enumerate(open(p), 1):
-                    s = line
-                    # strip block comments (single-level) and line comments
-                    if in_block:
-                        if "-/" in s:
-                            s = s.split("-/", 1)[1]; in_block = False
-                        else:
-                            continue
-                    while "/-" in s:
-                        pre, rest = s.split("/-", 1)
-                        if "-/" in rest:
-                            s = pre + rest.split("-/", 1)[1]
-                        else:
-                            s = pre; in_block = True
-                    s = s.split("--", 1)[0]
-                    if FORBIDDEN.search(s):
-                        hits.append(f"{os.path.relpath(p, LEAN)}:{i}: {line.strip()}")
+        for p in self.closure():
+            in_block = False
+            for i, line in enumerate(open(p), 1):
+                s = line
+                # strip block comments (single-level) and line comments
+                if in_block:
+                    if "-/" in s:
+                        s = s.split("-/", 1)[1]; in_block = False
+                    else:
+                        continue
+                while "/-" in s:
+                    pre, rest = s.split("/-", 1)
+                    if "-/" in rest:
+                        s = pre + rest.split("-/", 1)[1]
+                    else:
+                        s = pre; in_block = True
+                s = s.split("--", 1)[0]
+                if FORBIDDEN.search(s):
+                    hits.append(f"{os.path.relpath(p, LEAN)}:{i}: {line.strip()}")
         return hits
 
     def regenerate(self):
@@ -257,8 +265,9 @@ class LeanSide:
         if not lines:
             return []
         drv = driver or self.driver_file
-        # make sure the imported model modules are built
-        r = self._locked(["lake", "build", "CuqiVerif"])
+        # make sure the model modules imported by the driver are built (only those)
+        mods = re.findall(r"^import\s+(CuqiVerif\.\S+)", open(drv).read(), re.M)
+        r = self._locked(["lake", "build"] + mods)
         if r.returncode != 0:
             raise RuntimeError("model build failed:\n" + (r.stdout + r.stderr)[-3000:])
         inp = "\n".join(lines) + "\n"
@@ -442,9 +451,11 @@ class KnownMap:
 
 
 def load_known(pid):
-    p = os.path.join(VERIF, "KNOWN_FINDINGS.jsonl")
+    import glob
     out = []
-    if os.path.exists(p):
+    for p in [os.path.join(VERIF, "KNOWN_FINDINGS.jsonl")] + sorted(glob.glob(os.path.join(VERIF, "known", "*.jsonl"))):
+        if not os.path.exists(p):
+            continue
         for l in open(p):
             l = l.strip()
             if l and not l.startswith("#"):
